@@ -218,6 +218,51 @@ def run(facts, R):
     be = facts.body(PR + "::broadcast_each")
     R.check(not [1 for i, t in be.calls() if callee_matches(t["callee"], PR + "::lock")], "one-lock-per-op", be.path, "sends outside the lock", "broadcast_each holds the registry lock while sending", be.span)
 
+    # nothing the embedder supplied runs while the lock is held: a caller's predicate, a sink method or a hook that panics (or calls
+    # back into the registry) in the middle of a multi-map update leaves the maps disagreeing for every later caller - `lock()` forgives
+    # poisoning, so the half-finished state is served as if it were consistent
+    def _foreign(t):
+        c = t["callee"]
+        if c["name"] in ("call", "call_mut", "call_once") and ("std::ops::Fn" in c["path"] or "core::ops::function::Fn" in c["path"]):
+            return "a caller-supplied closure"
+        if c.get("trait", "").endswith("PeerSink") or (c["path"].startswith("peer::PeerHandle::") and c["name"] not in ("peer_id", "clone", "eq")):
+            return "the peer's sink (%s)" % c["name"]
+        return None
+    n_lk = 0
+    for b in facts.bodies.values():
+        if not b.path.startswith("peer::") or "::{" in b.path:
+            continue
+        for i, t in b.calls():
+            if not callee_matches(t["callee"], PR + "::lock") or t.get("target") is None:
+                continue
+            n_lk += 1
+            g = t["dest"]["l"]
+            held, work = set(), [t["target"]]
+            while work:
+                x = work.pop()
+                if x in held:
+                    continue
+                held.add(x)
+                tt = b.blocks[x]["term"]
+                if tt["k"] == "drop" and tt["place"]["l"] == g and not tt["place"]["p"]:
+                    continue
+                if tt["k"] == "call" and any("move" in a and a["move"]["l"] == g and not a["move"]["p"] for a in tt["args"]):
+                    continue
+                work.extend(b.succs(x))
+            bad = []
+            for x in sorted(held):
+                tt = b.blocks[x]["term"]
+                if tt["k"] == "call" and _foreign(tt):
+                    bad.append((_foreign(tt), tt.get("span")))
+            for cb in facts.children(b.path):
+                for x, tt in cb.calls():
+                    if _foreign(tt):
+                        bad.append((_foreign(tt) + " inside " + cb.path.rsplit("::", 1)[-1], tt.get("span")))
+            R.check(not bad, "one-lock-per-op", b.path, "no embedder code runs under the registry lock",
+                    "%s runs %s while it holds the registry lock: a panic (or a re-entrant registry call) there interrupts the map update half-way and the forgiving lock() serves the "
+                    "disagreeing maps to every later caller" % (b.path.rsplit("::", 1)[-1], bad[0][0] if bad else ""), bad[0][1] if bad else b.span, "lock region: %d blocks" % len(held))
+    R.floor("one-lock-per-op", n_lk, 8, "lock regions examined for embedder code")
+
     # ---------------- alias-pairing: alias() ----------------------------------------------------------------
     ab = facts.body(PR + "::alias")
     s = Sym(ab)
